@@ -54,7 +54,7 @@ def kissat(nvars, clauses, timeout, workdir):
     return "unknown", None
 
 
-def prove_equal(g, x, y, timeout, workdir, st):
+def prove_equal(g, x, y, timeout, workdir, st, assume=()):
     """is literal x == literal y for all inputs?  returns ('unsat'|'sat'|'unknown', input assignment or None)"""
     if x == y:
         return "unsat", None
@@ -64,7 +64,7 @@ def prove_equal(g, x, y, timeout, workdir, st):
         return "unsat", None
     if m == 1:
         return "sat", {}
-    nv, cl, vm = aig.to_cnf(g, [m])
+    nv, cl, vm = aig.to_cnf(g, [m] + list(assume))
     st.sat_calls += 1
     t0 = time.time()
     res, model = kissat(nv, cl, timeout, workdir)
@@ -84,31 +84,44 @@ def prove_equal(g, x, y, timeout, workdir, st):
 
 
 def rebuild(g, repl, roots):
-    """new graph where node n is replaced by literal repl[n] (of a smaller node); returns (new graph, mapped roots)"""
+    """new graph where node n is replaced by literal repl[n]; returns (new graph, mapped roots)"""
     ng = aig.Graph(g.affine)
-    new = [0] * g.size()
+    new = [None] * g.size()
     new[0] = 0
-    for n in g.inputs:      # inputs first and in the same order: affine masks stay valid
+    for n in g.inputs:      # inputs first and in the same order
         new[n] = ng.new_input(g.names.get(n, "i%d" % n))
-    for n in range(2, g.size()):
+
+    def mp(l):
+        return l if l <= 1 else new[l >> 1] ^ (l & 1)
+    # only what the roots need (merged-away cones disappear)
+    stack = [l >> 1 for vec in roots for l in vec if l > 1]
+    while stack:
+        n = stack[-1]
+        if new[n] is not None:
+            stack.pop()
+            continue
+        deps = [repl[n]] if n in repl else g.children(n)
+        pend = [l >> 1 for l in deps if l > 1 and new[l >> 1] is None]
+        if pend:
+            stack.extend(pend)
+            continue
+        stack.pop()
         k = g.kind[n]
         if n in repl:
-            r = repl[n]
-            new[n] = new[r >> 1] ^ (r & 1)
-            continue
-        if k == 1:
-            pass
+            new[n] = mp(repl[n])
+        elif k == 2:
+            new[n] = ng.AND(mp(g.a[n]), mp(g.b[n]))
+        elif k == 3:
+            new[n] = ng.XOR(mp(g.a[n]), mp(g.b[n]))
         elif k == 4:
-            new[n] = ng.from_mask(g.mask[n])
-        else:
-            x, y = g.a[n], g.b[n]
-            nx = new[x >> 1] ^ (x & 1)
-            ny = new[y >> 1] ^ (y & 1)
-            new[n] = ng.AND(nx, ny) if k == 2 else ng.XOR(nx, ny)
-    return ng, [[(new[l >> 1] ^ (l & 1)) if l > 1 else l for l in vec] for vec in roots]
+            new[n] = ng.xor_many([mp(l) for l in g.children(n)])
+        elif k == 5:
+            ins, tt = g.lut[n]
+            new[n] = ng.lut_bits([mp(l) for l in ins], [(tt >> x) & 1 for x in range(1 << len(ins))], 1)[0]
+    return ng, [[mp(l) for l in vec] for vec in roots]
 
 
-def check_equal(outs_a, outs_b, workdir, budget_s=600, seed=1, log=None):
+def check_equal(outs_a, outs_b, workdir, budget_s=600, seed=1, log=None, assume=()):
     """outs_a / outs_b: lists of bit-literal lists over aig.G.  returns (verdict, info)
     verdict: 'equal' | 'different' (info['assignment'] = input name -> bool) | 'unknown'"""
     g = aig.G
@@ -117,6 +130,7 @@ def check_equal(outs_a, outs_b, workdir, budget_s=600, seed=1, log=None):
     t_start = time.time()
     A = [list(v) for v in outs_a]
     B = [list(v) for v in outs_b]
+    assume = [l for l in assume if l != 1]      # input constraints: output miters are decided under them
     extra_patterns = []
     nwords = 2
     batch = 64
@@ -133,7 +147,7 @@ def check_equal(outs_a, outs_b, workdir, budget_s=600, seed=1, log=None):
             vx = val[x >> 1] ^ (mask if x & 1 else 0) if x > 1 else (mask if x else 0)
             vy = val[y >> 1] ^ (mask if y & 1 else 0) if y > 1 else (mask if y else 0)
             if vx != vy:
-                res, assign = prove_equal(g, x, y, 60, workdir, st)
+                res, assign = prove_equal(g, x, y, 60, workdir, st, assume)
                 if res == "sat":
                     return "different", dict(st.__dict__, assignment={g.names[n]: v for n, v in assign.items()})
         # candidate classes among nodes in the cone of the differing outputs
@@ -160,7 +174,7 @@ def check_equal(outs_a, outs_b, workdir, budget_s=600, seed=1, log=None):
             # nothing to merge: try the output miters directly
             ok_all = True
             for x, y in diff:
-                res, assign = prove_equal(g, x, y, max(5, min(120, budget_s - (time.time() - t_start))), workdir, st)
+                res, assign = prove_equal(g, x, y, max(5, min(120, budget_s - (time.time() - t_start))), workdir, st, assume)
                 if res == "sat":
                     return "different", dict(st.__dict__, assignment={g.names[n]: v for n, v in assign.items()})
                 if res != "unsat":
@@ -227,7 +241,7 @@ def check_equal(outs_a, outs_b, workdir, budget_s=600, seed=1, log=None):
         if proved:
             st.merged += proved
             st.rebuilds += 1
-            ng, (A2, B2) = rebuild(g, repl, [[l for v in A for l in v], [l for v in B for l in v]])
+            ng, (A2, B2, assume) = rebuild(g, repl, [[l for v in A for l in v], [l for v in B for l in v], assume])
             # re-split
             def resplit(flat, shape):
                 out, i = [], 0
